@@ -677,3 +677,118 @@ pub async fn run_listener() {
     judge(&mon, 1, pact, lact, &out, &rep, heartbeat);
     let _ = NetCfg::plain();
 }
+
+// ---------------------------------------------------------------------------------------
+// "A close from the peer is always answered with a close (after already queued frames are
+// flushed)": the client has 3-10 sessions, the direction client -> peer stops delivering, the
+// application ends every session (each end carries a description of a few hundred bytes, so that
+// the connection engine is soon stuck in a write with the other ends queued behind it), the peer
+// sends its close (with or without an error), and then the direction is opened again. Whatever the
+// engine picks up first, every end that had been queued must be written before the answering close.
+
+pub async fn run_flush_before_close() {
+    let k = 3 + choice(8) as usize;
+    let with_error = choice(3) != 0;
+    let mut ccfg = EndpointCfg::default_cfg();
+    ccfg.max_frame_size = pick(&[65536u32, 4096, 1024]);
+    let mut nab = NetCfg::draw();
+    nab.capacity = pick(&[64usize, 300, 1000]);
+    nab.stall_den = 0;
+    let nba = NetCfg::plain();
+    let desc_len = pick(&[50usize, 300, 600]);
+    sim::set_config(format!("variant=flush-before-close sessions={} peer-close-with-error={} a2b-capacity={} description={}B {}", k, with_error, nab.capacity, desc_len, nab.describe()));
+    sim::mark_nontrivial();
+    let (cs, ps, net) = SimStream::pair("client", "peer", nab, nba);
+    let mon = wire::install(&net, ["client", "peer"], [models(), Models::none()]);
+    let mut peer = Peer::new("peer", ps);
+    let hs = async {
+        let _ = peer.expect_header().await?;
+        peer.send_header(AMQP_HEADER).await;
+        peer.expect(wire::OPEN).await?;
+        peer.send(0, &peer::open("peer", Some(65536), Some(255), None)).await;
+        Some(())
+    };
+    let (c, o) = match sim::op("open", world::join2(sim::in_group(1, world::client_open(&ccfg, cs)), hs)).await {
+        Some(x) => x,
+        None => return,
+    };
+    let mut handle = match (c, o) {
+        (Ok(h), Some(())) => h,
+        _ => {
+            sim::violation("open-failed", "open against a legal peer failed".into());
+            return;
+        }
+    };
+    // the sessions
+    let mut sessions = Vec::new();
+    for i in 0..k {
+        let bf = sim::in_group(1, Session::begin(&mut handle));
+        let pb = async {
+            let b = peer.expect(wire::BEGIN).await?;
+            peer.send(b.channel, &peer::begin(Some(b.channel), 0, 100, 100)).await;
+            Some(())
+        };
+        match sim::op(&format!("begin #{}", i), world::join2(bf, pb)).await {
+            Some((Ok(s), Some(()))) => sessions.push(s),
+            _ => {
+                sim::violation("begin-failed", "begin against a legal peer failed".into());
+                return;
+            }
+        }
+    }
+    let _ = peer::settle(&mut peer, &net, |_| {}).await;
+    // nothing the client writes from here on reaches the peer until further notice
+    net.freeze_a2b(true);
+    sim::fault("peer-stops-reading");
+    let ended = std::rc::Rc::new(std::cell::Cell::new(0usize));
+    for (i, mut s) in sessions.into_iter().enumerate() {
+        let ended2 = ended.clone();
+        sim::spawn("app-ending-a-session", sim::in_group(1, async move {
+            let e = definitions::Error::new(AmqpError::InternalError, Some(format!("{}-{}", i, "d".repeat(desc_len))), None);
+            let _ = tokio::time::timeout(std::time::Duration::from_secs(300), s.end_with_error(e)).await;
+            ended2.set(ended2.get() + 1);
+        }));
+    }
+    // every session engine has handed its end to the connection engine, which is stuck in a write
+    // (or has written them all, if they were small): nothing is runnable
+    sim::sleep_ms(5).await;
+    sim::until_idle().await;
+    let err = if with_error { Some(peer::error("amqp:connection:forced", Some("peer-closes"))) } else { None };
+    peer.send(0, &peer::close(err)).await;
+    sim::fault(if with_error { "peer-closes-with-error-while-frames-are-queued" } else { "peer-closes-while-frames-are-queued" });
+    sim::sleep_ms(pick(&[0u64, 1, 20])).await;
+    sim::until_idle().await;
+    net.freeze_a2b(false);
+    // read everything the client writes until its close or the end of the stream
+    let mut ends = 0usize;
+    let mut saw_close = false;
+    loop {
+        match peer.recv_within(20_000).await {
+            Some(Item::Frame(f)) if f.code == wire::END => ends += 1,
+            Some(Item::Frame(f)) if f.code == wire::CLOSE => {
+                saw_close = true;
+                break;
+            }
+            Some(_) => {}
+            None => break,
+        }
+    }
+    peer.shutdown().await;
+    let _ = tokio::time::timeout(std::time::Duration::from_secs(60), handle.on_close()).await;
+    mon.borrow_mut().sync();
+    if sim::has_violation() {
+        return;
+    }
+    if !saw_close {
+        sim::violation("peer-close-not-answered", format!("the peer closed while {} ends were queued; the client wrote {} ends and no close", k, ends));
+        return;
+    }
+    if ends != k {
+        sim::violation(
+            "queued-frames-not-flushed-before-close",
+            format!("{} sessions had been ended (their end frames queued in the connection) when the peer's close{} arrived; the client wrote {} of the ends before its answering close", k, if with_error { " with an error" } else { "" }, ends),
+        );
+        return;
+    }
+    sim::probe("queued-frames-flushed-before-close");
+}
